@@ -94,6 +94,14 @@ func c16Copies(w *core.W, j int) {
 			continue
 		}
 		c16CopyRR(w, built, "struct")
+		// the same record with a field or two (or an option, an SVCB parameter) set by hand: address
+		// lists in 4- and 16-octet form, hex in either case, unpadded base64 ...
+		if hb, err := buildAny(r); err == nil && hb != nil {
+			if t := handMutate(g, hb); len(t) > 0 {
+				w.Count("copies_of_hand_built_records", 1)
+				c16CopyRR(w, hb, "hand-built "+strings.Join(t, ","))
+			}
+		}
 		// and the decoder's own representation of the same record
 		if rr2, _, err := dns.UnpackRR(r.Wire(), 0); err == nil {
 			c16CopyRR(w, rr2, "decoded")
